@@ -1,4 +1,3 @@
-use quote::ToTokens;
 use serde_rename_rule::RenameRule;
 use syn::Attribute;
 
@@ -17,14 +16,37 @@ impl SerdeParser {
 
         for attr in attrs {
             if attr.path().is_ident("serde") {
-                if let Ok(tokens) = syn::parse2::<syn::MetaList>(attr.meta.to_token_stream()) {
-                    let tokens_str = tokens.tokens.to_string();
-
-                    // Parse rename_all = "convention"
-                    if let Some(convention) = self.parse_rename_all(&tokens_str) {
-                        result.rename_all = Some(convention);
+                // Walk the meta items: `rename_all` is also a prefix of `rename_all_fields`, may
+                // occur inside a value, and has a `rename_all(serialize = "..", deserialize = "..")`
+                // form of which only the serialize side names what reaches the frontend.
+                let _ = attr.parse_nested_meta(|meta| {
+                    if meta.path.is_ident("rename_all") {
+                        if meta.input.peek(syn::Token![=]) {
+                            let lit: syn::LitStr = meta.value()?.parse()?;
+                            if let Ok(rule) = RenameRule::from_rename_all_str(&lit.value()) {
+                                result.rename_all = Some(rule);
+                            }
+                        } else {
+                            meta.parse_nested_meta(|inner| {
+                                let lit: syn::LitStr = inner.value()?.parse()?;
+                                if inner.path.is_ident("serialize") {
+                                    if let Ok(rule) = RenameRule::from_rename_all_str(&lit.value())
+                                    {
+                                        result.rename_all = Some(rule);
+                                    }
+                                }
+                                Ok(())
+                            })?;
+                        }
+                    } else if meta.input.peek(syn::Token![=]) {
+                        let _: syn::Expr = meta.value()?.parse()?;
+                    } else if meta.input.peek(syn::token::Paren) {
+                        let content;
+                        syn::parenthesized!(content in meta.input);
+                        let _: proc_macro2::TokenStream = content.parse()?;
                     }
-                }
+                    Ok(())
+                });
             }
         }
 
@@ -79,6 +101,7 @@ impl SerdeParser {
 
     /// Parse rename_all value like "camelCase", "snake_case", "PascalCase", etc. to
     /// find a matching `serde_rename_rule::RenameRule`.
+    #[cfg_attr(not(test), allow(dead_code))]
     fn parse_rename_all(&self, tokens: &str) -> Option<RenameRule> {
         if let Some(start) = tokens.find("rename_all") {
             if let Some(eq_pos) = tokens[start..].find('=') {
